@@ -18,6 +18,8 @@ import os
 import numpy as np
 
 from vf import core
+from vf import callforms
+from vf import errorpaths
 from vf import solverlib as sl
 
 PROPERTY = "C03"
@@ -341,6 +343,8 @@ def run(ctx):
     )
     ctx.assumptions += ["continuous Kz of the harness' own profile families is integrated by scipy.quad for the exact resistance"]
     cc = list(cons_cases(ctx.tier))
+    callforms.run_solver_forms(ctx)
+    errorpaths.run(ctx, case_conservation, [c for c in cons_cases(ctx.tier) if c['prof'] == 'most_aniso'][:2])
     ctx.run_cases(case_conservation, cc, sub="conservation", chunksize=1)
     ctx.run_cases(case_unitmass, cc, sub="unit-mass", chunksize=1)
     ctx.run_cases(case_halo, halo_cases(ctx.tier), sub="halo-padding", chunksize=1)
